@@ -69,6 +69,7 @@ func runOne(u Univ, cfg Config, prof Profile, seed uint64, steps int, path strin
 	baseGoroutines := runtime.NumGoroutine()
 	r := NewRunner(u, cfg, fs, "db", t)
 	r.Hook = hook
+	r.Logger = crashLogger{}
 	if err := r.Open(); err != nil {
 		r.fail(err)
 		return t.N, err
@@ -164,7 +165,11 @@ func TestDrive(t *testing.T) {
 				t.Fatalf("unknown config %s", cn)
 			}
 			path := filepath.Join(out, fmt.Sprintf("%s-%d-%04d-%s.ndjson", prof.Name, seed, i, cn))
-			n, ferr := runOne(u, cfg, prof, seed*1000003+uint64(i), steps, path)
+			// a Logger.Fatalf of the store under test ends this script with a "fail" event (see guardedCrash)
+			n, _, _, ferr := guardedCrash(path, func() (int, int, map[string]int, error) {
+				n, err := runOne(u, cfg, prof, seed*1000003+uint64(i), steps, path)
+				return n, 0, nil, err
+			})
 			total += n
 			if ferr != nil {
 				fmt.Fprintf(os.Stdout, "DRIVER-FAIL %s: %v\n", path, ferr)
